@@ -851,6 +851,10 @@ func (c *SpecCtx) call(n *ast.CallExpr) SV {
 		}
 		sort.Slice(ds, func(i, j int) bool { return ds[i].S < ds[j].S })
 		return SV{V: Or(ds...)}
+	case "timerstopped":
+		// timerstopped(t): Stop has been called on this *time.Timer / *time.Ticker (ghost)
+		t := c.coerceTo(c.eval(n.Args[0]), SRef)
+		return SV{V: e.regionRead(c.st, "timer.stopped", []Sort{SRef}, SBool, t)}
 	case "sent", "recvd":
 		ch := c.coerceTo(c.eval(n.Args[0]), SChan)
 		return SV{V: e.regionRead(c.st, "chan."+fn.Name, []Sort{SChan}, e.cntSort(), ch), T: types.Typ[types.Uint64]}
@@ -984,7 +988,13 @@ func (c *SpecCtx) call(n *ast.CallExpr) SV {
 		name := c.strArg(n.Args[0])
 		i := c.intArg(n.Args[1])
 		if v, ok := c.st.Ghost["ires:"+name+":"+i.S]; ok {
-			return SV{V: v}
+			sv := SV{V: v}
+			if f := e.funcs[name]; f != nil {
+				if k, err := strconv.Atoi(i.S); err == nil && k < f.Signature.Results().Len() {
+					sv.T = f.Signature.Results().At(k).Type()
+				}
+			}
+			return sv
 		}
 		// not called on this path: an arbitrary placeholder that adapts to the expected sort (clauses must guard it)
 		return SV{V: T{"noicall", "AnyLit"}}
@@ -1224,7 +1234,7 @@ var reflectUF = map[string]ufSig{
 	"rt_kind": {[]Sort{SAny}, SInt}, "rt_numin": {[]Sort{SAny}, SInt}, "rt_numout": {[]Sort{SAny}, SInt},
 	"rt_in": {[]Sort{SAny, SInt}, SAny}, "rt_out": {[]Sort{SAny, SInt}, SAny}, "rt_variadic": {[]Sort{SAny}, SBool},
 	"rt_elem": {[]Sort{SAny}, SAny}, "rt_assignable": {[]Sort{SAny, SAny}, SBool}, "rt_of": {[]Sort{SAny}, SAny},
-	"rt_ptrto": {[]Sort{SAny}, SAny},
+	"rt_ptrto": {[]Sort{SAny}, SAny}, "rt_chandir": {[]Sort{SAny}, SInt},
 	"rv_valid": {[]Sort{"X_reflect.Value"}, SBool}, "rv_type": {[]Sort{"X_reflect.Value"}, SAny},
 	"rv_isnil": {[]Sort{"X_reflect.Value"}, SBool}, "rv_canset": {[]Sort{"X_reflect.Value"}, SBool},
 	"rv_iface": {[]Sort{"X_reflect.Value"}, SAny}, "rv_of": {[]Sort{SAny}, "X_reflect.Value"},
